@@ -418,6 +418,75 @@ pub fn carry_header(root: u8, header: &[u8]) -> (Ty, Vec<u8>) {
 }
 pub const N_ROOTS: u8 = 12;
 
+/// A header map (already encoded) at every kind of position a header can occupy: the twelve
+/// carrier roots, counter signatures (bare / array form, first and later element, through a
+/// protected or an unprotected header, two levels deep), a signer / recipient at index >= 1.
+pub fn header_carriers(header: &[u8]) -> Vec<(Ty, Vec<u8>, &'static str)> {
+    const NAMES: [&str; 12] = [
+        "Header",
+        "Sign1.protected",
+        "Sign1.unprotected",
+        "Sign signer protected",
+        "Mac.protected",
+        "Encrypt0.protected",
+        "Encrypt nested recipient protected",
+        "SuppPubInfo.protected",
+        "KDF context SuppPubInfo.protected",
+        "ProtectedHeader map",
+        "Signature.protected",
+        "Mac0 protected and unprotected",
+    ];
+    let mut out: Vec<(Ty, Vec<u8>, &'static str)> = Vec::new();
+    for root in 0..N_ROOTS {
+        let (ty, b) = carry_header(root, header);
+        out.push((ty, b, NAMES[root as usize]));
+    }
+    let p = bstr_wrap(header);
+    let cat = |parts: &[&[u8]]| -> Vec<u8> { parts.iter().flat_map(|x| x.iter().copied()).collect() };
+    // counter signatures in a bare header
+    let cs_unprot = cat(&[&[0xa1, 0x07, 0x83, 0x40], header, &[0x40]]);
+    let cs_prot = cat(&[&[0xa1, 0x07, 0x83], &p, &[0xa0, 0x40]]);
+    let cs_arr2_prot = cat(&[&[0xa1, 0x07, 0x82, 0x83, 0x40, 0xa0, 0x40, 0x83], &p, &[0xa0, 0x41, 0x01]]);
+    let cs_arr3_unprot = cat(&[&[0xa1, 0x07, 0x83, 0x83, 0x40, 0xa0, 0x40, 0x83, 0x40, 0xa0, 0x41, 0x01, 0x83, 0x40], header, &[0x41, 0x02]]);
+    let cs_arr1_unprot = cat(&[&[0xa1, 0x07, 0x81, 0x83, 0x40], header, &[0x40]]);
+    out.push((Ty::Header, cs_unprot.clone(), "counter signature unprotected"));
+    out.push((Ty::Header, cs_prot.clone(), "counter signature protected"));
+    out.push((Ty::Header, cs_arr2_prot, "second of two counter signatures, protected"));
+    out.push((Ty::Header, cs_arr3_unprot, "third of three counter signatures, unprotected"));
+    out.push((Ty::Header, cs_arr1_unprot, "array of one counter signature, unprotected"));
+    // ... carried by a message
+    let (ty, b) = carry_header(1, &cs_prot);
+    out.push((ty, b, "counter signature protected, inside Sign1.protected"));
+    let (ty, b) = carry_header(2, &cs_unprot);
+    out.push((ty, b, "counter signature unprotected, inside Sign1.unprotected"));
+    let (ty, b) = carry_header(6, &cs_unprot);
+    out.push((ty, b, "counter signature unprotected, inside a nested recipient's protected header"));
+    // two levels of counter signatures
+    let cs2 = cat(&[&[0xa1, 0x07, 0x83], &bstr_wrap(&cs_unprot), &[0xa0, 0x40]]);
+    out.push((Ty::Header, cs2, "counter signature inside a counter signature"));
+    // second signer / second recipient / unprotected header of a recipient
+    out.push((Ty::Sign, cat(&[&[0x84, 0x40, 0xa0, 0xf6, 0x82, 0x83, 0x40, 0xa0, 0x40, 0x83, 0x40], header, &[0x41, 0x05]]), "second signer unprotected"));
+    out.push((Ty::Sign, cat(&[&[0x84, 0x40, 0xa0, 0xf6, 0x83, 0x83, 0x40, 0xa0, 0x40, 0x83, 0x40, 0xa0, 0x41, 0x01, 0x83], &p, &[0xa0, 0x41, 0x05]]), "third signer protected"));
+    out.push((Ty::Encrypt, cat(&[&[0x84, 0x40, 0xa0, 0xf6, 0x82, 0x83, 0x40, 0xa0, 0x40, 0x83, 0x40], header, &[0xf6]]), "second recipient unprotected"));
+    out.push((Ty::Mac, cat(&[&[0x85, 0x40, 0xa0, 0x41, 0x00, 0x40, 0x81, 0x83], &p, &[0xa0, 0x40]]), "Mac recipient protected"));
+    out.push((Ty::Recipient, cat(&[&[0x84, 0x40, 0xa0, 0xf6, 0x82, 0x83, 0x40, 0xa0, 0x40, 0x83, 0x40], header, &[0x40]]), "second nested recipient unprotected"));
+    out.push((Ty::Encrypt, cat(&[&[0x84, 0x40], header, &[0xf6, 0x81, 0x83, 0x40, 0xa0, 0x40]]), "Encrypt.unprotected"));
+    out
+}
+
+/// A key map (already encoded) as a bare key and at several indices of a key set.
+pub fn key_carriers(key: &[u8]) -> Vec<(Ty, Vec<u8>, &'static str)> {
+    let cat = |parts: &[&[u8]]| -> Vec<u8> { parts.iter().flat_map(|x| x.iter().copied()).collect() };
+    let good: [u8; 3] = [0xa1, 0x01, 0x04];
+    vec![
+        (Ty::Key, key.to_vec(), "Key"),
+        (Ty::KeySet, cat(&[&[0x81], key]), "only key of a key set"),
+        (Ty::KeySet, cat(&[&[0x82], &good, key]), "second key of a key set"),
+        (Ty::KeySet, cat(&[&[0x83], key, &good, &good]), "first of three keys"),
+        (Ty::KeySet, cat(&[&[0x83], &good, &good, key]), "third of three keys"),
+    ]
+}
+
 fn head(out: &mut Vec<u8>, major: u8, n: u64) {
     rcbor::put_head(out, major, n, &mut rcbor::Style::canonical());
 }
